@@ -36,6 +36,8 @@ type c04Case struct {
 	Pool       []vfB     `json:"pool"`
 	Steps      []c04Step `json:"steps"`
 	Goroutines int       `json:"goroutines"`
+	Reuse      bool      `json:"reuse_buffer"` // sequential only: every input is copied into one reused buffer before the call
+	PadTo      int       `json:"pad_to"`       // > 0: inputs are NUL-padded to this common length first
 }
 
 func c04Run(pool [][]byte, s c04Step) string {
@@ -75,8 +77,28 @@ func c04Check(c c04Case) vfResult {
 	var r vfResult
 	defer SetLimit(defaultLimit)
 	pool := make([][]byte, len(c.Pool))
+	maxLen := 0
 	for i := range c.Pool {
 		pool[i] = []byte(c.Pool[i])
+		if c.PadTo > len(pool[i]) {
+			pool[i] = append(append([]byte(nil), pool[i]...), make([]byte, c.PadTo-len(pool[i]))...)
+		}
+		if len(pool[i]) > maxLen {
+			maxLen = len(pool[i])
+		}
+	}
+	// the baseline is always taken on separately allocated inputs
+	shared := make([]byte, maxLen)
+	reusePool := func(s c04Step) [][]byte {
+		if !c.Reuse || c.Goroutines > 1 {
+			return pool
+		}
+		x := pool[s.I%len(pool)]
+		n := copy(shared, x)
+		alt := make([][]byte, len(pool))
+		copy(alt, pool)
+		alt[s.I%len(pool)] = shared[:n]
+		return alt
 	}
 	base := map[string]string{}
 	for _, s := range c.Steps {
@@ -98,7 +120,7 @@ func c04Check(c c04Case) vfResult {
 		var prev *c04Step
 		for si := range c.Steps {
 			s := c.Steps[si]
-			got := c04Run(pool, s)
+			got := c04Run(reusePool(s), s)
 			if want := base[c04Key(s, len(pool))]; got != want {
 				hist := ""
 				for _, p := range c.Steps[:si] {
@@ -118,6 +140,12 @@ func c04Check(c c04Case) vfResult {
 			prev = &c.Steps[si]
 		}
 		r.Labels = append(r.Labels, "sequential")
+		if c.Reuse {
+			r.Labels = append(r.Labels, "one-reused-caller-buffer")
+			if c.PadTo > 0 {
+				r.Labels = append(r.Labels, "equal-length-inputs")
+			}
+		}
 	} else {
 		// concurrent: all steps share one limit (the limit is process-global)
 		lim := c.Steps[0].Limit
@@ -188,6 +216,30 @@ var c04Special = []string{
 func c04GenPool(t *rapid.T) []vfB {
 	n := rapid.IntRange(3, 8).Draw(t, "npool")
 	var pool []vfB
+	// family pools: all inputs of one family, so that whatever one detection leaves behind
+	// (pooled scratch state, a memo keyed on the caller's buffer, ...) is relevant to the next
+	switch rapid.IntRange(0, 7).Draw(t, "family") {
+	case 0:
+		for i := 0; i < n; i++ {
+			pool = append(pool, vfB(c03Zip(t)))
+		}
+		return pool
+	case 1:
+		for i := 0; i < n; i++ {
+			pool = append(pool, c10Gen(t).Doc)
+		}
+		return pool
+	case 2:
+		for i := 0; i < n; i++ {
+			pool = append(pool, c13GenFwd(t).Doc)
+		}
+		return pool
+	case 3:
+		for i := 0; i < n; i++ {
+			pool = append(pool, vfB(c03Ole(t)))
+		}
+		return pool
+	}
 	for i := 0; i < n; i++ {
 		switch rapid.IntRange(0, 9).Draw(t, "pk") {
 		case 0, 1, 2, 3:
@@ -200,7 +252,11 @@ func c04GenPool(t *rapid.T) []vfB {
 			d := rapid.SampledFrom([]int{3, 100, 129, 200, 4095, 4096, 4097, 5000}).Draw(t, "deep")
 			pool = append(pool, vfB(c04DeepKeys(d, rapid.Bool().Draw(t, "close"))))
 		case 7:
-			pool = append(pool, c09GenMutant(t).H)
+			if rapid.Bool().Draw(t, "zipin") {
+				pool = append(pool, vfB(c03Zip(t)))
+			} else {
+				pool = append(pool, c09GenMutant(t).H)
+			}
 		case 8:
 			pool = append(pool, vfB(strings.Repeat(rapid.SampledFrom([]string{"a,b,c\n", "{\"a\":[1,2,3]}\n", "[", "x"}).Draw(t, "rep"), rapid.IntRange(1, 3000).Draw(t, "reps"))))
 		default:
@@ -237,6 +293,16 @@ func c04Gen(conc bool) func(t *rapid.T) c04Case {
 			c.Steps = append(c.Steps, s)
 		}
 		c.Goroutines = 1
+		if !conc && rapid.Bool().Draw(t, "reuse") {
+			c.Reuse = true
+			if rapid.Bool().Draw(t, "pad") {
+				for _, p := range c.Pool {
+					if len(p) > c.PadTo && len(p) <= 4096 {
+						c.PadTo = len(p)
+					}
+				}
+			}
+		}
 		if conc {
 			c.Goroutines = rapid.IntRange(2, 4).Draw(t, "g")
 			for i := range c.Steps {
